@@ -99,6 +99,20 @@ var harnesses = map[string]*Harness{
 		},
 		GoMaxProcs: 2,
 	},
+	"h4chain": {
+		PkgDir:   zz + "h4chain",
+		TestName: "TestVerifH4",
+		Files: map[string]string{
+			zz + "h4chain/run_test.go":     "harness/h4chain/run_test.go",
+			zz + "h4chain/genesis_test.go": "harness/h4chain/genesis_test.go",
+			zz + "h4chain/author_test.go":  "harness/h4chain/author_test.go",
+			zz + "h4chain/plan_test.go":    "harness/h4chain/plan_test.go",
+			zz + "h4chain/ref_test.go":     "harness/h4chain/ref_test.go",
+			zz + "h4chain/faults_test.go":  "harness/h4chain/faults_test.go",
+			zz + "h4chain/phasec_test.go":  "harness/h4chain/phasec_test.go",
+		},
+		GoMaxProcs: 2,
+	},
 	"h5cache": {
 		PkgDir:   zz + "h5cache",
 		TestName: "TestVerifH5Cache",
@@ -118,6 +132,126 @@ var harnesses = map[string]*Harness{
 }
 
 var checks = []Check{
+	{
+		Property: "C26", Harness: "h4chain", Level: "exploration",
+		Quick:        tierCfg{budget: 50, shrink: 100},
+		Thorough:     tierCfg{budget: 1200, shrink: 1000},
+		RunTimeoutS:  240,
+		Rule:         "one evaluation = one generated history: synthetic tiny genesis (6 trivial-seed validators, 1-3 services with storage / stored / solicited preimages, authorizer pools with duplicates), an author-built block tree (slot gaps across epoch boundaries, tickets, preimages, disputes with real Ed25519 votes, forks), then a delivery schedule with up to 8 faults: a block mutated so that it is rejected at a chosen STF stage (header, disputes, safrole, seal/entropy, extrinsic), re-delivery of the rejected block, a child of the rejected block, a second different invalid block, restart from exported state, GetState of an unknown hash. The schedule is run twice on fresh incarnations: N2 without the blocks a clean node rejects, N1 with them; N1 must answer every valid delivery exactly like N2 (accept/reject, root, GetState) and GetState(head) must be unchanged after every rejection; the same valid sequence on two fresh nodes must give identical roots. non-trivial = at least 3 valid blocks; distinct = decision tape hash",
+		Real:         []string{"internal/fuzz.FuzzServiceStub SetState / ImportBlock / GetState", "internal/stf.RunSTF with every stage (safrole, disputes, assurances, reports, accumulation, history, preimages, authorizations, statistics)", "internal/blockchain.ChainState commit / restore / prune, stores on the in-memory provider, leaf cache", "state codec (StateEncoder / StateKeyValsToState) and block codec on every delivery"},
+		Stub:         []string{vrfStub, "block author = harness code (fallback and ticket seals through the stand-in, real Ed25519 for disputes); it is not an oracle", "multi-node = sequential incarnations of the process-wide chain-state singleton separated by SetState"},
+		Assumptions:  []string{"the VRF is a stand-in: nothing about Bandersnatch is decided and ticket identifiers are stand-in outputs", "one chain state per process: the clean reference node and the node under test are sequential incarnations", "blocks come from the harness author: chains of 3-30 (thorough 60) blocks over several epochs with tickets, preimages and disputes; no guarantees/assurances yet (stage A)"},
+		LevelText:    "seeded exploration of block histories with injected rejections at every STF stage, retries, orphans and restarts; the oracle is a second incarnation of the real node that never saw the rejected blocks; evidence, not proof",
+		LevelNote:    "what \"same result\" means: accept/reject decision, returned root, GetState key-value set (error texts are logged, not compared); the observation that a node which imported other VALID branches can answer differently from a node that imported only a block's ancestry is counted as a by-product (not claimed by the property text)",
+		Technique:    "deterministic simulation of the node under seeded block histories with fault injection (invalid blocks rejected at chosen STF stages, retries, children of rejected blocks, forks, restarts from exported state), reference-node and reference-model oracles, tape shrinking + fresh-process replay",
+		DesignRef:    "DESIGN.md §4 H4, Appendix A",
+		ExpectProbes: []string{"fault:delivered_invalid", "fault:delivered_retry", "fault:delivered_orphan", "fault:restart_from_export", "probe:valid_block_accepted_after_fault", "rejections_by_stage:2", "rejections_by_stage:4", "rejections_by_stage:5", "rejections_by_stage:6", "rejections_by_stage:7", "fault:fork_sibling_built"},
+	},
+	{
+		Property: "C17", Harness: "h4chain", Level: "exploration",
+		Quick:        tierCfg{budget: 50, shrink: 100},
+		Thorough:     tierCfg{budget: 1200, shrink: 1000},
+		RunTimeoutS:  240,
+		Rule:         "one evaluation = one generated history: synthetic tiny genesis (6 trivial-seed validators, 1-3 services with storage / stored / solicited preimages, authorizer pools with duplicates), an author-built block tree (slot gaps across epoch boundaries, tickets, preimages, disputes with real Ed25519 votes, forks), every exported state (GetState after every accepted block, on fresh incarnations) is parsed back and re-serialised together with its raw entries and must give the exported key-value set; restarts: SetState with the export in a permuted key order (with or without ancestry) must return the root of the exported set and export the same set again, and the node must then continue like the node that was not restarted (C26 oracle)",
+		Real:         []string{"internal/fuzz.FuzzServiceStub SetState / ImportBlock / GetState", "internal/stf.RunSTF with every stage (safrole, disputes, assurances, reports, accumulation, history, preimages, authorizations, statistics)", "internal/blockchain.ChainState commit / restore / prune, stores on the in-memory provider, leaf cache", "state codec (StateEncoder / StateKeyValsToState) and block codec on every delivery"},
+		Stub:         []string{vrfStub, "block author = harness code (fallback and ticket seals through the stand-in, real Ed25519 for disputes); it is not an oracle", "multi-node = sequential incarnations of the process-wide chain-state singleton separated by SetState"},
+		Assumptions:  []string{"the VRF is a stand-in: nothing about Bandersnatch is decided and ticket identifiers are stand-in outputs", "one chain state per process: the clean reference node and the node under test are sequential incarnations", "blocks come from the harness author: chains of 3-30 (thorough 60) blocks over several epochs with tickets, preimages and disputes; no guarantees/assurances yet (stage A)"},
+		LevelText:    "seeded exploration; restart-from-export and fork-restore are the injected faults; evidence, not proof. State richness is limited to what stage-A blocks produce (services with storage, stored and solicited preimages, tickets, disputes, statistics)",
+		LevelNote:    "raw (unattributable) entries appear only if the parser leaves any; the comparison is on key-value sets",
+		Technique:    "deterministic simulation of the node under seeded block histories with fault injection (invalid blocks rejected at chosen STF stages, retries, children of rejected blocks, forks, restarts from exported state), reference-node and reference-model oracles, tape shrinking + fresh-process replay",
+		DesignRef:    "DESIGN.md §4 H4, Appendix A",
+		ExpectProbes: []string{"probe:export_roundtrip_checked", "fault:restart_from_export"},
+	},
+	{
+		Property: "C23", Harness: "h4chain", Level: "exploration",
+		Quick:        tierCfg{budget: 50, shrink: 100},
+		Thorough:     tierCfg{budget: 1200, shrink: 1000},
+		RunTimeoutS:  240,
+		Rule:         "one evaluation = one generated history: synthetic tiny genesis (6 trivial-seed validators, 1-3 services with storage / stored / solicited preimages, authorizer pools with duplicates), an author-built block tree (slot gaps across epoch boundaries, tickets, preimages, disputes with real Ed25519 votes, forks), for every block a fresh node accepts, the reference ticket accumulator (lowest identifiers of carried-over and new tickets, strictly increasing, at most E, reset at an epoch change) and the reference slot-sealer sequence (unchanged within an epoch; outside-in of a full accumulator when the epoch advances by one and the prior slot index is at or after the submission end; otherwise entropy-derived fallback keys) are compared with the exported state; blocks with unsorted, duplicated, over-attempt or late tickets must be rejected by a fresh node",
+		Real:         []string{"internal/fuzz.FuzzServiceStub SetState / ImportBlock / GetState", "internal/stf.RunSTF with every stage (safrole, disputes, assurances, reports, accumulation, history, preimages, authorizations, statistics)", "internal/blockchain.ChainState commit / restore / prune, stores on the in-memory provider, leaf cache", "state codec (StateEncoder / StateKeyValsToState) and block codec on every delivery"},
+		Stub:         []string{vrfStub, "block author = harness code (fallback and ticket seals through the stand-in, real Ed25519 for disputes); it is not an oracle", "multi-node = sequential incarnations of the process-wide chain-state singleton separated by SetState"},
+		Assumptions:  []string{"the VRF is a stand-in: nothing about Bandersnatch is decided and ticket identifiers are stand-in outputs", "one chain state per process: the clean reference node and the node under test are sequential incarnations", "blocks come from the harness author: chains of 3-30 (thorough 60) blocks over several epochs with tickets, preimages and disputes; no guarantees/assurances yet (stage A)"},
+		LevelText:    "seeded exploration over multi-epoch histories with a reference model written from the property text; evidence, not proof",
+		LevelNote:    "ticket identifiers are stand-in VRF outputs; ring proofs are stand-in",
+		Technique:    "deterministic simulation of the node under seeded block histories with fault injection (invalid blocks rejected at chosen STF stages, retries, children of rejected blocks, forks, restarts from exported state), reference-node and reference-model oracles, tape shrinking + fresh-process replay",
+		DesignRef:    "DESIGN.md §4 H4, Appendix A",
+		ExpectProbes: []string{"probe:tickets_accumulated", "probe:sealer_sequence_fallback_on_epoch_change", "fault:invalid_block:tickets-unsorted", "fault:invalid_block:tickets-duplicate", "fault:invalid_block:ticket-over-attempt", "fault:invalid_block:tickets-after-submission-window"},
+	},
+	{
+		Property: "C25", Harness: "h4chain", Level: "exploration",
+		Quick:        tierCfg{budget: 50, shrink: 100},
+		Thorough:     tierCfg{budget: 1200, shrink: 1000},
+		RunTimeoutS:  240,
+		Rule:         "one evaluation = one generated history: synthetic tiny genesis (6 trivial-seed validators, 1-3 services with storage / stored / solicited preimages, authorizer pools with duplicates), an author-built block tree (slot gaps across epoch boundaries, tickets, preimages, disputes with real Ed25519 votes, forks), for every accepted block the reference recent-history transition (previous newest entry gets the block's parent state root; new entry with header hash, zero state root, reported packages sorted by hash and the super-peak of the Keccak mountain range after appending the commitment of the block's accumulation outputs; at most H entries, oldest dropped) and the reference range peaks are compared with the exported state",
+		Real:         []string{"internal/fuzz.FuzzServiceStub SetState / ImportBlock / GetState", "internal/stf.RunSTF with every stage (safrole, disputes, assurances, reports, accumulation, history, preimages, authorizations, statistics)", "internal/blockchain.ChainState commit / restore / prune, stores on the in-memory provider, leaf cache", "state codec (StateEncoder / StateKeyValsToState) and block codec on every delivery"},
+		Stub:         []string{vrfStub, "block author = harness code (fallback and ticket seals through the stand-in, real Ed25519 for disputes); it is not an oracle", "multi-node = sequential incarnations of the process-wide chain-state singleton separated by SetState"},
+		Assumptions:  []string{"the VRF is a stand-in: nothing about Bandersnatch is decided and ticket identifiers are stand-in outputs", "one chain state per process: the clean reference node and the node under test are sequential incarnations", "blocks come from the harness author: chains of 3-30 (thorough 60) blocks over several epochs with tickets, preimages and disputes; no guarantees/assurances yet (stage A)"},
+		LevelText:    "seeded exploration over histories longer than H with a reference model (own MMR append / super-peak / well-balanced Merkle root); evidence, not proof. Stage A: no guarantees, accumulation outputs are empty",
+		LevelNote:    "the block header hash is the repository's (hash of the encoded header)",
+		Technique:    "deterministic simulation of the node under seeded block histories with fault injection (invalid blocks rejected at chosen STF stages, retries, children of rejected blocks, forks, restarts from exported state), reference-node and reference-model oracles, tape shrinking + fresh-process replay",
+		DesignRef:    "DESIGN.md §4 H4, Appendix A",
+		ExpectProbes: []string{"probe:history_at_capacity", "probe:history_full_oldest_dropped"},
+	},
+	{
+		Property: "C34", Harness: "h4chain", Level: "exploration",
+		Quick:        tierCfg{budget: 50, shrink: 100},
+		Thorough:     tierCfg{budget: 1200, shrink: 1000},
+		RunTimeoutS:  240,
+		Rule:         "one evaluation = one generated history: synthetic tiny genesis (6 trivial-seed validators, 1-3 services with storage / stored / solicited preimages, authorizer pools with duplicates), an author-built block tree (slot gaps across epoch boundaries, tickets, preimages, disputes with real Ed25519 votes, forks), for every accepted block the reference validator records (author: +1 block, +tickets, +preimages, +preimage octets; assurers +1; guarantors +1; at an epoch change current becomes previous and is reset), service records (provided count/size from the preimage extrinsic) and all-zero core records when nothing is reported or available are compared with the exported state",
+		Real:         []string{"internal/fuzz.FuzzServiceStub SetState / ImportBlock / GetState", "internal/stf.RunSTF with every stage (safrole, disputes, assurances, reports, accumulation, history, preimages, authorizations, statistics)", "internal/blockchain.ChainState commit / restore / prune, stores on the in-memory provider, leaf cache", "state codec (StateEncoder / StateKeyValsToState) and block codec on every delivery"},
+		Stub:         []string{vrfStub, "block author = harness code (fallback and ticket seals through the stand-in, real Ed25519 for disputes); it is not an oracle", "multi-node = sequential incarnations of the process-wide chain-state singleton separated by SetState"},
+		Assumptions:  []string{"the VRF is a stand-in: nothing about Bandersnatch is decided and ticket identifiers are stand-in outputs", "one chain state per process: the clean reference node and the node under test are sequential incarnations", "blocks come from the harness author: chains of 3-30 (thorough 60) blocks over several epochs with tickets, preimages and disputes; no guarantees/assurances yet (stage A)"},
+		LevelText:    "seeded exploration across epoch boundaries with a reference model; evidence, not proof. Stage A: guarantor / assurer / core / refinement / accumulation parts are exercised only with empty inputs",
+		LevelNote:    "",
+		Technique:    "deterministic simulation of the node under seeded block histories with fault injection (invalid blocks rejected at chosen STF stages, retries, children of rejected blocks, forks, restarts from exported state), reference-node and reference-model oracles, tape shrinking + fresh-process replay",
+		DesignRef:    "DESIGN.md §4 H4, Appendix A",
+		ExpectProbes: []string{"probe:statistics_epoch_rollover"},
+	},
+	{
+		Property: "C35", Harness: "h4chain", Level: "exploration",
+		Quick:        tierCfg{budget: 50, shrink: 100},
+		Thorough:     tierCfg{budget: 1200, shrink: 1000},
+		RunTimeoutS:  240,
+		Rule:         "one evaluation = one generated history: synthetic tiny genesis (6 trivial-seed validators, 1-3 services with storage / stored / solicited preimages, authorizer pools with duplicates), an author-built block tree (slot gaps across epoch boundaries, tickets, preimages, disputes with real Ed25519 votes, forks), dispute extrinsics carry verdicts of the three defined outcomes (2/3+1, 0, 1/3 positive votes) with real Ed25519 votes by current or previous-epoch validators and the culprits / faults they require; for every accepted block the reference judgement sets (pairwise disjoint, sorted, grown by exactly the new verdicts) and offender set (sorted, only growing) are compared with the exported state; a verdict with any other vote count must be rejected by a fresh node",
+		Real:         []string{"internal/fuzz.FuzzServiceStub SetState / ImportBlock / GetState", "internal/stf.RunSTF with every stage (safrole, disputes, assurances, reports, accumulation, history, preimages, authorizations, statistics)", "internal/blockchain.ChainState commit / restore / prune, stores on the in-memory provider, leaf cache", "state codec (StateEncoder / StateKeyValsToState) and block codec on every delivery"},
+		Stub:         []string{vrfStub, "block author = harness code (fallback and ticket seals through the stand-in, real Ed25519 for disputes); it is not an oracle", "multi-node = sequential incarnations of the process-wide chain-state singleton separated by SetState"},
+		Assumptions:  []string{"the VRF is a stand-in: nothing about Bandersnatch is decided and ticket identifiers are stand-in outputs", "one chain state per process: the clean reference node and the node under test are sequential incarnations", "blocks come from the harness author: chains of 3-30 (thorough 60) blocks over several epochs with tickets, preimages and disputes; no guarantees/assurances yet (stage A)"},
+		LevelText:    "seeded exploration with a reference model; evidence, not proof. Stage A: no pending reports, so the 'removed from pending availability' clause is only checked vacuously",
+		LevelNote:    "at most two offenders per history so that enough keyed validators remain to author blocks",
+		Technique:    "deterministic simulation of the node under seeded block histories with fault injection (invalid blocks rejected at chosen STF stages, retries, children of rejected blocks, forks, restarts from exported state), reference-node and reference-model oracles, tape shrinking + fresh-process replay",
+		DesignRef:    "DESIGN.md §4 H4, Appendix A",
+		ExpectProbes: []string{"probe:verdict_good", "probe:verdict_bad", "probe:verdict_wonky", "probe:offenders_added", "fault:invalid_block:verdict-other-vote-count"},
+	},
+	{
+		Property: "C31", Harness: "h4chain", Level: "exploration",
+		Quick:        tierCfg{budget: 50, shrink: 100},
+		Thorough:     tierCfg{budget: 1200, shrink: 1000},
+		RunTimeoutS:  240,
+		Rule:         "one evaluation = one generated history: synthetic tiny genesis (6 trivial-seed validators, 1-3 services with storage / stored / solicited preimages, authorizer pools with duplicates), an author-built block tree (slot gaps across epoch boundaries, tickets, preimages, disputes with real Ed25519 votes, forks), preimage extrinsics provide solicited-but-unprovided blobs; blocks with unsorted, duplicated, unsolicited or already-provided entries must be rejected by a fresh node; every accepted preimage must be stored with the block's slot as the single start of its availability",
+		Real:         []string{"internal/fuzz.FuzzServiceStub SetState / ImportBlock / GetState", "internal/stf.RunSTF with every stage (safrole, disputes, assurances, reports, accumulation, history, preimages, authorizations, statistics)", "internal/blockchain.ChainState commit / restore / prune, stores on the in-memory provider, leaf cache", "state codec (StateEncoder / StateKeyValsToState) and block codec on every delivery"},
+		Stub:         []string{vrfStub, "block author = harness code (fallback and ticket seals through the stand-in, real Ed25519 for disputes); it is not an oracle", "multi-node = sequential incarnations of the process-wide chain-state singleton separated by SetState"},
+		Assumptions:  []string{"the VRF is a stand-in: nothing about Bandersnatch is decided and ticket identifiers are stand-in outputs", "one chain state per process: the clean reference node and the node under test are sequential incarnations", "blocks come from the harness author: chains of 3-30 (thorough 60) blocks over several epochs with tickets, preimages and disputes; no guarantees/assurances yet (stage A)"},
+		LevelText:    "seeded exploration of admission and integration over block histories; evidence, not proof. PARTIAL: the historical-lookup function clause is a pure function that no on-chain path reaches and is not decided here",
+		LevelNote:    "",
+		Technique:    "deterministic simulation of the node under seeded block histories with fault injection (invalid blocks rejected at chosen STF stages, retries, children of rejected blocks, forks, restarts from exported state), reference-node and reference-model oracles, tape shrinking + fresh-process replay",
+		DesignRef:    "DESIGN.md §4 H4, Appendix A",
+		ExpectProbes: []string{"probe:preimage_integrated", "fault:invalid_block:preimage-unsolicited", "fault:invalid_block:preimage-already-provided", "fault:invalid_block:preimages-unsorted"},
+	},
+	{
+		Property: "C24", Harness: "h4chain", Level: "exploration",
+		Quick:        tierCfg{budget: 50, shrink: 100},
+		Thorough:     tierCfg{budget: 1200, shrink: 1000},
+		RunTimeoutS:  240,
+		Rule:         "one evaluation = one generated history: synthetic tiny genesis (6 trivial-seed validators, 1-3 services with storage / stored / solicited preimages, authorizer pools with duplicates), an author-built block tree (slot gaps across epoch boundaries, tickets, preimages, disputes with real Ed25519 votes, forks), for every accepted block the reference pool transition per core (prior pool minus the leftmost occurrence of each authorizer used by that core's guarantees, plus the queue entry selected by the slot, last O kept) is compared with the exported state",
+		Real:         []string{"internal/fuzz.FuzzServiceStub SetState / ImportBlock / GetState", "internal/stf.RunSTF with every stage (safrole, disputes, assurances, reports, accumulation, history, preimages, authorizations, statistics)", "internal/blockchain.ChainState commit / restore / prune, stores on the in-memory provider, leaf cache", "state codec (StateEncoder / StateKeyValsToState) and block codec on every delivery"},
+		Stub:         []string{vrfStub, "block author = harness code (fallback and ticket seals through the stand-in, real Ed25519 for disputes); it is not an oracle", "multi-node = sequential incarnations of the process-wide chain-state singleton separated by SetState"},
+		Assumptions:  []string{"the VRF is a stand-in: nothing about Bandersnatch is decided and ticket identifiers are stand-in outputs", "one chain state per process: the clean reference node and the node under test are sequential incarnations", "blocks come from the harness author: chains of 3-30 (thorough 60) blocks over several epochs with tickets, preimages and disputes; no guarantees/assurances yet (stage A)"},
+		LevelText:    "seeded exploration over many slots with pools that contain duplicates; evidence, not proof. Stage A: no guarantees, so the removal clause is not exercised yet",
+		LevelNote:    "",
+		Technique:    "deterministic simulation of the node under seeded block histories with fault injection (invalid blocks rejected at chosen STF stages, retries, children of rejected blocks, forks, restarts from exported state), reference-node and reference-model oracles, tape shrinking + fresh-process replay",
+		DesignRef:    "DESIGN.md §4 H4, Appendix A",
+		ExpectProbes: []string{"probe:pool_overflow_oldest_dropped"},
+	},
 	{
 		Property: "C22", Harness: "h2sched", Level: "exploration",
 		Quick:        tierCfg{budget: 50, shrink: 150},
